@@ -1,11 +1,16 @@
 #!/bin/bash
-# usage: run_seed.sh <seed-id> <property> [tier]   — applies the seeded change to /repo, runs the check, reverts.
+# usage: run_seed.sh <seed-id> <property> [tier]
+# Applies the seeded change to a throw-away worktree of /repo (under /tmp, removed
+# at the end), runs the check against that tree (VX_REPO) with evidence and
+# replays redirected to a scratch directory (VX_OUT), and reports the outcome.
+# /repo itself and /verif/evidence are not touched.
 S=$1; P=$2; T=${3:-quick}
-cd /verif
-git -C /repo diff --quiet || { echo "/repo has uncommitted changes"; exit 2; }
-git -C /repo apply /verif/seeded/$S/patch.diff || { echo "PATCH-DOES-NOT-APPLY $S"; exit 2; }
-./check $P $T > /tmp/seedrun_$S.log 2>&1
+WT=/tmp/seedwt-$S-$P; OUT=/tmp/seedout-$S-$P
+rm -rf $OUT; mkdir -p $OUT
+git -C /repo worktree add -q --detach $WT HEAD || exit 2
+trap "git -C /repo worktree remove --force $WT; rm -rf $OUT" EXIT
+git -C $WT apply /verif/seeded/$S/patch.diff || { echo "PATCH-DOES-NOT-APPLY $S"; exit 2; }
+VX_REPO=$WT VX_OUT=$OUT /verif/check $P $T > /tmp/seedrun_$S-$P.log 2>&1
 rc=$?
-git -C /repo checkout -- .
-nv=$(grep -c "^VIOLATION" /tmp/seedrun_$S.log)
-echo "$S on $P/$T: exit=$rc violations=$nv $(grep '^VIOLATION' /tmp/seedrun_$S.log | head -2 | sed 's/.*replay=//' | xargs -n1 basename 2>/dev/null | tr '\n' ' ')"
+nv=$(grep -c "^VIOLATION" /tmp/seedrun_$S-$P.log)
+echo "$S on $P/$T: exit=$rc violations=$nv $(grep '^VIOLATION' /tmp/seedrun_$S-$P.log | head -3 | sed 's/.*replay=//' | xargs -n1 basename 2>/dev/null | tr '\n' ' ')"
